@@ -19,7 +19,8 @@ RULE_TEXT = ("2-4 tasks issue 3-6 operations in total against one run's state: s
              "stores to step invocations: _ServerInternalRunAdapter.get_state_store creates one per adapter). The final state "
              "must equal the result of some serial order of the operations that respects real-time precedence (all <=720 orders "
              "tried). A quarter of the runs use a typed child state (ChildSt(BaseSt)) on the in-memory / SQLite store with parent-type "
-             "set_state merges, field sets, replaces and clears racing edit_state blocks that modify a parent or a child field. Non-trivial: >=2 edit_state blocks overlapped in time; distinct = abstract trace shape.")
+             "set_state merges, field sets, replaces and clears racing edit_state blocks that modify a parent or a child field. Non-trivial: >=2 edit_state blocks overlapped in time; distinct = abstract trace shape."
+             " Edit blocks are held 0-2 s or (a model call inside the block) 45 s / 700 s; on the shared-SQLite arrangement a crowd of 140 other runs may use their own state stores while a block is open.")
 COMPONENTS = {"real": ["InMemoryStateStore, SqliteStateStore (stdlib sqlite3, file DB), SqliteWorkflowStore.create_state_store"],
               "stub": [], "sim": ["loop, clock, sequential state model"]}
 ASSUMPTIONS = ["each edit_state block counts as one atomic operation (statement)", "sqlite3 calls are synchronous; interleaving happens only at awaits"]
